@@ -19,7 +19,7 @@ import zlib
 
 from .catenv import Real, Struct, database, dec, handwritten, show_tree
 
-SEVERAL_TRIES = 48
+SEVERAL_TRIES = 64
 
 
 class Table:
@@ -275,11 +275,11 @@ def replay_path(st: Struct, tab: Table, path: dict, pidx: int, patch=None):
             if direct[0].get_string_id() != want_id:
                 _mm(out, f'operator:{op}:method', f, **ctx, got=direct[0].get_string_id())
             if key not in ops:
-                _mm(out, 'operator:missing', f, **ctx, key=key)
+                _mm(out, "operator:missing", f, **ctx, operator_key=key)
             else:
                 new, ret = ops[key](before, s)
                 if new.get_string_id() != want_id:
-                    _mm(out, f'operator:{op}', f, **ctx, got=new.get_string_id(), key=key)
+                    _mm(out, f'operator:{op}', f, **ctx, got=new.get_string_id(), operator_key=key)
                 if ret != step['ret'] or direct[1] != step['ret']:
                     _mm(out, f'operator:{op}:count', dict(kind='count', op=op, **facts), **ctx, got=ret, want_count=step['ret'])
                 if new not in cc.all_configurations:
